@@ -623,7 +623,7 @@ func (env *SpecEnv) trCall(e *SExpr) Val {
 			return Val{T: "(qlen_" + x.S[len("Seq_"):] + " " + x.T + ")", S: "Int"}
 		case x.GT != nil:
 			if _, ok := x.GT.Underlying().(*types.Map); ok {
-				return Val{T: c.mapCard(env.st, x), S: "Int"}
+				return Val{T: "(ite (= " + x.T + " 0) 0 " + c.mapCard(env.st, x) + ")", S: "Int"}
 			}
 		}
 		env.fail("len of %s (sort %s)", args[0], x.S)
@@ -642,6 +642,37 @@ func (env *SpecEnv) trCall(e *SExpr) Val {
 		x := env.tr(args[0])
 		env.want(x, "Iface", args[0])
 		return Val{T: "(iref " + x.T + ")", S: "Int"}
+	case "pcall":
+		// pcall("pkg.Func", args...): application of a function declared `pure` (same symbol as in code)
+		if args[0].Op != "str" {
+			env.fail("pcall needs a function name string")
+		}
+		name := args[0].S
+		i := strings.LastIndex(name, ".")
+		if i < 0 {
+			env.fail("pcall: bad name %s", name)
+		}
+		var fobj *types.Func
+		for _, p := range c.eng.pkgs {
+			if p.Types != nil && p.PkgPath == name[:i] {
+				fobj, _ = p.Types.Scope().Lookup(name[i+1:]).(*types.Func)
+			}
+		}
+		if fobj == nil || !c.eng.isPure(fobj) {
+			env.fail("pcall: %s is not a declared pure function", name)
+		}
+		var ss []Sort
+		var ts []string
+		for _, a := range args[1:] {
+			v := env.tr(a)
+			ss = append(ss, v.S)
+			ts = append(ts, v.T)
+		}
+		rt := fobj.Type().(*types.Signature).Results().At(0).Type()
+		rs := c.sortOf(rt)
+		fn := "pure!" + mangle(fobj.FullName())
+		c.declFun(fn, ss, rs)
+		return Val{T: "(" + fn + " " + strings.Join(ts, " ") + ")", S: rs, GT: rt}
 	case "boxptr":
 		// boxptr(x, "pkgname.Type"): the interface value holding the pointer x of type *pkgname.Type
 		x := env.tr(args[0])
@@ -680,6 +711,20 @@ func (env *SpecEnv) trCall(e *SExpr) Val {
 			return c.zero(t)
 		}
 		return Val{T: c.zeroOfSort(so, nil), S: so}
+	case "cell":
+		// cell(p, "Sort"): the value of sort Sort stored in the cell p points to (p a pointer or a boxed pointer)
+		x := env.tr(args[0])
+		if x.S == "Iface" {
+			x = Val{T: "(iref " + x.T + ")", S: "Int"}
+		}
+		if args[1].Op != "str" {
+			env.fail("cell needs a sort name string")
+		}
+		so, err := c.parseSort(args[1].S)
+		if err != nil {
+			env.fail("%v", err)
+		}
+		return Val{T: sel(c.heapRead(env.st, "C:"+so, arraySort("Int", so)), x.T), S: so}
 	case "deref":
 		x := env.tr(args[0])
 		if x.GT == nil {
@@ -721,12 +766,18 @@ func (env *SpecEnv) trCall(e *SExpr) Val {
 		if args[1].Op != "str" {
 			env.fail("typeis needs a type name string")
 		}
-		for k, n := range c.eng.typeTags {
-			if k == args[1].S || strings.HasSuffix(k, "/"+args[1].S) || strings.HasSuffix(k, "/"+strings.TrimPrefix(args[1].S, "*")) && strings.HasPrefix(args[1].S, "*") == strings.HasPrefix(k, "*") {
-				return Val{T: fmt.Sprintf("(= (itag %s) %d)", x.T, n), S: "Bool"}
+		{
+			name := args[1].S
+			ptrTo := strings.HasPrefix(name, "*")
+			t := c.eng.lookupNamed(strings.TrimPrefix(name, "*"))
+			if t == nil {
+				env.fail("typeis: unknown type %s", name)
 			}
+			if ptrTo {
+				t = types.NewPointer(t)
+			}
+			return Val{T: fmt.Sprintf("(= (itag %s) %d)", x.T, c.eng.typeTag(t)), S: "Bool"}
 		}
-		env.fail("typeis: type %s has no tag (never boxed in the loaded code)", args[1].S)
 	case "unbox":
 		// unbox(x, "Sort"): the value of sort Sort held by interface value x
 		x := env.tr(args[0])
